@@ -128,6 +128,8 @@ func outcomeOf(f func()) string {
 	}
 }
 
+var misuseRuns int
+
 // misuseCases exercises out-of-range and unbalanced Adds on fresh casters (sequentially).
 func misuseCases(r *rec.Rec) {
 	mk := func() *bigbuff.ChanCaster[chan int, int] { return bigbuff.NewChanCaster(make(chan int)) }
@@ -231,7 +233,10 @@ func runCasterExec(execID int, sci any, e *Env) []rec.Ev {
 		}
 	}
 	hi, lo := bigbuff.VerifChanCasterState(x.c)
-	if execID%25 == 0 {
+	if execID%25 == 0 && misuseRuns < 8 {
+		// (a bounded number of times per process: the cases are deterministic, and some of them leave a goroutine
+		// blocked for ever on purpose - outcome "hang")
+		misuseRuns++
 		misuseCases(e.R)
 	}
 	e.R.Add(rec.Ev{"ev": "final", "leaked": nlib, "returned": e.DriversDone(), "hi": hi, "lo": lo})
